@@ -68,9 +68,32 @@ def children(buf, a, b):
     return out
 
 
+def nni(value, width):
+    """NonNegativeInteger in the given width (1, 2, 4, 8 octets; every width is a legal encoding)."""
+    assert width in (1, 2, 4, 8) and 0 <= value < 1 << (8 * width)
+    return value.to_bytes(width, 'big')
+
+
 def meta_tlv(marker, style):
-    """MetaInfo: bare / with ContentType 0 / with a FreshnessPeriod; FinalBlockId = the marker component."""
+    """MetaInfo.  style 0 / 1 / 2: bare / with ContentType 0 / with a FreshnessPeriod of 1000; FinalBlockId = the marker
+    component.  style ['m', ct, fp, extra] (the MetaInfo family of c19_meta.py): ContentType ct and FreshnessPeriod fp, each
+    None (element absent) or [value, width] (NonNegativeInteger of that value in that many octets); extra = None,
+    'no-metainfo' (no MetaInfo element at all when there is nothing to put in it), 'unknown-element' (an element with an
+    unassigned non-critical type number after the known ones)."""
     v = b''
+    if isinstance(style, (list, tuple)):
+        _, ct, fp, extra = style
+        if ct is not None:
+            v += tl(24, nni(ct[0], ct[1]))
+        if fp is not None:
+            v += tl(25, nni(fp[0], fp[1]))
+        if marker is not None:
+            v += tl(26, marker)
+        if extra == 'unknown-element':
+            v += tl(240, b'\x01\x02')
+        if extra == 'no-metainfo' and not v:
+            return b''
+        return tl(20, v)
     if style == 1:
         v += tl(24, b'\x00')
     if style == 2:
@@ -363,9 +386,14 @@ def run_signed(s, wires, losses, mode, kw):
 
 
 # ---- one case -------------------------------------------------------------------------------------------------------
-def one_case(ctx, s, shapes, losses, mode, retry, lifetime, mbf, stratum, style=0):
+def one_case(ctx, s, shapes, losses, mode, retry, lifetime, mbf, stratum, style=0, site=None):
     """s: scenario without fates (H.mk_scenario with fates={}); shapes: {key: signature shape} for key in 0..N-1 (the
-    discovery Interest is answered with the packet of segment s['disc'][1]) or {None: shape} for an unsegmented object."""
+    discovery Interest is answered with the packet of segment s['disc'][1]) or {None: shape} for an unsegmented object.
+    style: the MetaInfo style of every packet (see meta_tlv), or {key: style} with one style per packet (c19_meta.py).
+    site: the site violations are reported at (default: the signed-segment stream's)."""
+    SITE = site or globals()['SITE']
+    pre = stratum.split('.')[0]
+    style_of = (lambda k: style.get(k, 0)) if isinstance(style, dict) else (lambda k: style)
     M = ctx.call
     policy = MODES[mode]
     if not s['prefix']:
@@ -373,13 +401,13 @@ def one_case(ctx, s, shapes, losses, mode, retry, lifetime, mbf, stratum, style=
     N = s['nseg']
     wires = {}
     if s['disc'][0] == 'whole':
-        wires[None] = (s['disc'][1], build_data(s['disc'][1], s['disc'][2], s['disc'][3], shapes[None], style))
+        wires[None] = (s['disc'][1], build_data(s['disc'][1], s['disc'][2], s['disc'][3], shapes[None], style_of(None)))
         shape_of = {None: shapes[None]}
     else:
         shape_of = {}
         for i in range(N):
             nm = s['base'] + [H.seg(i)]
-            wires[i] = (nm, build_data(nm, s['contents'][i], s['markers'][i], shapes[i], style))
+            wires[i] = (nm, build_data(nm, s['contents'][i], s['markers'][i], shapes[i], style_of(i)))
             shape_of[i] = shapes[i]
         wires[None] = wires.get(s['disc'][1])
         shape_of[None] = shapes.get(s['disc'][1])
@@ -391,7 +419,11 @@ def one_case(ctx, s, shapes, losses, mode, retry, lifetime, mbf, stratum, style=
             'must': {('discovery' if k is None else f'segment {k}'): v for k, v in verdict.items()},
             'losses before the answer': {('discovery' if k is None else f'segment {k}'): v for k, v in losses.items() if v},
             'retry_times': retry, 'timeout': lifetime, 'must_be_fresh': mbf,
-            'input': {'shapes': [[k, v] for k, v in shapes.items()], 'losses': [[k, v] for k, v in losses.items()], 'meta_style': style}}
+            'input': {'shapes': [[k, v] for k, v in shapes.items()], 'losses': [[k, v] for k, v in losses.items()], 'meta_style': [[k, v] for k, v in style.items()] if isinstance(style, dict) else style,
+                      'site': SITE}}
+    if isinstance(style, dict):
+        case['MetaInfo (ContentType, FreshnessPeriod as [value, octets], extra)'] = {
+            ('discovery / object' if k is None else f'segment {k}'): v[1:] for k, v in style.items()}
     events, ending, errors, pending, face, setup_error = run_signed(s, wires, losses, mode, kw)
     if setup_error is not None:
         ctx.disagree(SITE, f'the shipped validator of mode {mode!r} cannot be constructed: {type(setup_error).__name__}: {setup_error}',
@@ -432,7 +464,7 @@ def one_case(ctx, s, shapes, losses, mode, retry, lifetime, mbf, stratum, style=
             # left to the validator: refused iff the fetch ended with ValidationFailure on the packet of this key
             hit = last is not None and last[0] == 'ask' and last[2] == k and last[4] and ending == (1, (2,))
             after = H.INVALID if hit else H.DELIVERED
-            ctx.stat('F.open-verdict:' + ('refused' if hit else 'delivered-or-not-reached'))
+            ctx.stat(pre + '.open-verdict:' + ('refused' if hit else 'delivered-or-not-reached'))
         else:
             after = H.INVALID if v == 'refuse' else H.DELIVERED
         fates[k] = ([H.LOST] * losses.get(k, 0), after)
@@ -482,13 +514,13 @@ def one_case(ctx, s, shapes, losses, mode, retry, lifetime, mbf, stratum, style=
         ctx.violation(SITE, 'loop-exception', f'event loop handler called: {str(errors[0].get("message"))[:80]}', case)
     if pending:
         ctx.violation(SITE, 'pending-interests-left', f'{pending} entries left in the pending Interest table', case)
-    ctx.case(('F', mode, repr(s), repr(sorted(shape_of.items(), key=repr)), retry, lifetime, mbf),
+    ctx.case((pre, mode, repr(s), repr(sorted(shape_of.items(), key=repr)), retry, lifetime, mbf) + ((repr(style),) if isinstance(style, dict) else ()),
              any(e[0] == 'ask' and e[4] for e in events),
              {'N': N, 'validator': mode, 'shapes': [shape_of.get(k) for k in keys], 'ending': ending, 'interests': len(asks)}, stratum)
-    ctx.stat('F.ending:' + str(ending))
+    ctx.stat(pre + '.ending:' + str(ending))
     reached = [e[2] for e in events if e[0] == 'ask' and e[4]]
     for v in {verdict.get(k) for k in reached}:
-        ctx.stat(f'F.answered-by:{policy}:{v}')
+        ctx.stat(f'{pre}.answered-by:{policy}:{v}')
 
 
 def shapes_for(policy):
@@ -562,5 +594,8 @@ def replay(ctx, case):
     o['disc'] = tuple(o['disc'])
     o['fates'] = {}
     inp = case['input']
+    style = inp['meta_style']
+    if isinstance(style, list):            # one MetaInfo style per packet (c19_meta.py)
+        style = {k: v for k, v in style}
     one_case(ctx, o, {k: v for k, v in inp['shapes']}, {k: v for k, v in inp['losses']}, case['validator in force'],
-             case['retry_times'], case['timeout'], bool(case['must_be_fresh']), 'F.replay', style=inp['meta_style'])
+             case['retry_times'], case['timeout'], bool(case['must_be_fresh']), 'F.replay', style=style, site=inp.get('site'))
